@@ -10,6 +10,7 @@ built with satisfies `1 ≤ batch ≤ cap` and `1 ≤ buf` — the model's stand
 -/
 import Otel.Gen.C06
 import Otel.C06.Model
+import Otel.C06.RecHeap
 
 namespace Otel.C06.GenTie
 open Otel.C06
@@ -66,5 +67,9 @@ back to the default with the default queue, is in `[1, queue]` -/
 theorem gen_blrp_batch_in_range (q b : Int) (hq : 1 ≤ q) (hb : 1 ≤ b) :
     1 ≤ (if b > q then q else b) ∧ (if b > q then q else b) ≤ q := by
   split <;> omega
+
+/-- the number of attributes a record stores inline (`front [attributesInlineCount]log.KeyValue`, sdk/log/record.go)
+is the record-heap model's `Otel.C06.Rec.inlineCount` -/
+theorem gen_inline_count_eq_model : Otel.Gen.C06.attributesInlineCount = (Otel.C06.Rec.inlineCount : Int) := by decide
 
 end Otel.C06.GenTie
